@@ -293,6 +293,10 @@ def check(case):
         interesting.append("dry-run")
         if any("undefined" in (ref.steps.get(n) or []) for n in ref.selected):
             interesting.append("dry-run+undefined")
+    if run.notes:
+        interesting.append("nested-steps")
+        if cfg.get("verbose"):
+            interesting.append("nested-steps+verbose")
     for lab in interesting:
         res.label(lab)
     if ref.skipped_by_hook:
@@ -581,6 +585,23 @@ def case_st(draw):
                     s["text"] = draw(st.sampled_from([u"one line", u"two\nlines", u"ünï\n  indented", u""]))
                 elif v == 1:
                     s["table"] = draw(st.sampled_from([[[u"h"]], [[u"a", u"b"], [u"1", u"ü"]], [[u"x|y"], [u""]]]))
+    # steps that execute other steps (context.execute_steps): the sub-steps are no events of their own --
+    # whatever the verbosity of the run
+    nested = 0
+    for f in prog["features"]:
+        for it in f["items"]:
+            for sub in (it["items"] if it["k"] == "r" else [it]):
+                if sub["k"] != "s":
+                    continue
+                for s in sub["steps"]:
+                    if s["o"] == "pass" and not s.get("a") and "text" not in s and "table" not in s and \
+                            draw(st.integers(0, 5)) == 0:
+                        nested += 1
+                        s["o"] = "nest"
+                        s["sub"] = [{"uid": "n%d_%d" % (nested, k), "o": draw(st.sampled_from(["pass", "pass", "fail"]))}
+                                    for k in range(draw(st.integers(1, 2)))]
+    if draw(st.integers(0, 3)) == 0:
+        prog["cfg"]["verbose"] = True
     # run-time exclusion: a before_feature / before_rule / before_scenario hook skips its element
     if not prog.get("hook_faults") and not prog.get("cleanups") and draw(st.integers(0, 3)) == 0:
         prog["hook_faults"] = [[draw(st.integers(0, 10000)), "skip"]]
@@ -599,7 +620,7 @@ def explore(rec):
 
 
 def required_labels(tier):
-    return ["fmt:" + f for f in FORMATTERS] + ["json:background-steps", "rule-background", "outline", "failure", "deselection", "dry-run",
+    return ["fmt:" + f for f in FORMATTERS] + ["json:background-steps", "nested-steps", "nested-steps+verbose", "rule-background", "outline", "failure", "deselection", "dry-run",
                                                "dry-run+undefined", "readback:file", "skipped-by-hook:feature", "skipped-by-hook:scenario",
                                                "skipped-by-hook:rule"]
 
